@@ -83,6 +83,21 @@ claim("C14", "escape / read-only-use analysis of every package-level variable; l
       "Not decided: races inside user-supplied io.Reader/io.Writer implementations; the Go runtime.",
       TRUST + "Read-only stdlib parameter table (gl.go readOnlyStdCall).", "DESIGN.md §4 C14, §3.6")
 
+claim("C11", "census of explicit panics / unchecked assertions over the VTA cone with automatic discharge (CE, path walk, type coverage); guard obligations with exact relations",
+      "Decides: every explicit panic and comma-less type assertion reachable from the reader API is discharged automatically or carries a named justification, and a new one is "
+      "reported; the bounds between hostile input and an out-of-range index/allocation (match distance/length/space, dictLen = min(head, cap), >= 273 bytes free before decoding, "
+      "window >= 4096 and max(declared, configured), uvarint limits, header length before slicing, record count before allocation, sign checks, reject sets for control bytes / "
+      "dictionary codes / properties bytes) exist with the exact relation and fail on their bad edge; a failed chunk start is latched (no nil chunk reader on re-read). "
+      "Not decided: implicit panics in general; BOUNDED TIME (no termination analysis - stated plainly); n <= len(p).",
+      TRUST + "pnTable justification table (pn.go): writer-side numeric invariants are argued, not decided.", "DESIGN.md §4 C11, §3.7")
+
+claim("C13", "typestate (sticky error) and dominance rules on all paths of the Read methods; who-may-call set of direct Read invocations; error-provenance dataflow",
+      "Decides on all paths: every error/EOF return of Reader2.Read and uncompressedReader.Read is stored in the sticky field first and returned by the entry test; decoder.eos is "
+      "cleared only in Reopen; every error / end-of-stream return of the Read methods lies behind an `n < len(p)` edge (nothing is reported when nothing was requested); Reader2's "
+      "no-progress error needs (0, nil); the places that call Read directly (tolerating short reads) are a frozen set, fixed-size structures use io.ReadFull/CopyN; raw EOF "
+      "discipline. Schedules of calls cannot be enumerated by tests; the paths of these functions can. Not decided: equality of the delivered bytes under all schedules.",
+      TRUST, "DESIGN.md §4 C13")
+
 NOT_YET = "not yet decided: rules under construction (DESIGN.md §10); no claim is made"
 
 def main():
